@@ -1801,9 +1801,12 @@ def _readsegment(
             result += before
             return after, result
 
-        buf = _recv(sock, RECV_SIZE)
-        if not buf:
+        chunk = _recv(sock, RECV_SIZE)
+        if not chunk:
             raise MemcacheUnexpectedCloseError()
+        # Keep what was already received: the end token may arrive in a later
+        # piece or straddle two pieces.
+        buf += chunk
 
 
 def _recv(sock: socket.socket, size: int) -> bytes:
